@@ -14,6 +14,9 @@ Scenario (JSON):
         ['api', i, v]     PATCH /ports/p<i>/value through the real API function (ports without expression only)
         ['expr', i, e]    set (e != None) or clear the expression attribute of port i
         ['en', i, b]      enable / disable port i
+        ['fault', i, m]   driver READ FAULT on source port i: from now on its read_value raises an Exception (m = 'err':
+                          the hub then retries that port only every _PORT_READ_ERROR_RETRY_INTERVAL seconds) or SkipRead
+                          (m = 'skip'); m = None: the driver recovers. Lasts across bursts until recovered.
   <expr> = ['p', i] | ['lit', k] | [fname, e1, …]   with fname one of ADD SUB MUL IF GT EQ NOT AND OR AVAILABLE DEFAULT
 """
 import asyncio
@@ -161,8 +164,10 @@ class Hub:
                 self.reg = reg
                 self.rlat = list(rlat) or [0]
                 self.wlat = list(wlat) or [0]
+                self.fault = None         # None | 'err' | 'skip'
+                self.n_fail = 0           # read calls that ended with the scripted fault
                 self.n_read = 0
-                self.n_read_done = 0
+                self.n_read_done = 0      # completed, successful reads
                 self.n_write = 0
                 self.reads_in_flight = 0
                 self.writes_in_flight = 0
@@ -176,10 +181,16 @@ class Hub:
                     first = self.reg          # 'begin': the driver samples when the call starts
                     if lat:
                         await asyncio.sleep(lat / 1000.0)
+                    if self.fault == 'err':
+                        self.n_fail += 1
+                        raise IOError('scripted read fault')
+                    if self.fault == 'skip':
+                        self.n_fail += 1
+                        raise core_ports.SkipRead()
+                    self.n_read_done += 1
                     return first if self.sample == 'begin' else self.reg
                 finally:
                     self.reads_in_flight -= 1
-                    self.n_read_done += 1
 
             async def write_value(self, value):
                 lat = self.wlat[self.n_write % len(self.wlat)]
@@ -229,6 +240,9 @@ class Hub:
         if kind == 'src':
             v = op[3]
             p.reg = (bool(v) if p._type == 'boolean' else v * p.scale) if v is not None else None
+        elif kind == 'fault':
+            p.fault = op[3]
+            p.n_fail = 0
         elif kind == 'api':
             log.append(['api', op[2], await self._api_write(p, op[3])])
         elif kind == 'expr':
@@ -260,7 +274,9 @@ class Hub:
             # an enabled port that was not polled during a whole window is suspended after a read error (a port disabled
             # while its read call is running makes its read transform fail; the hub retries after
             # _PORT_READ_ERROR_RETRY_INTERVAL seconds): not quiescent yet
-            busy = busy or any(p.is_enabled() and p.n_read_done - r < 2 for p, r in zip(ports, reads))
+            # (a port whose driver is faulting right now only has to have failed once since the fault began)
+            busy = busy or any(p.is_enabled() and (p.n_read_done - r < 2 if p.fault is None else p.n_fail == 0)
+                               for p, r in zip(ports, reads))
             after = ([canon(p.get_last_read_value()) for p in ports], [p.n_write for p in ports],
                      [p.reg for p in ports])
             if not busy and before == after:
@@ -319,7 +335,7 @@ class Hub:
                     dt = t0 + op[0] / 1000.0 - self.loop.time()
                     if dt > 0:
                         await asyncio.sleep(dt)
-                    if op[1] in ('src',):
+                    if op[1] in ('src', 'fault'):
                         await self._apply(ports, op, log)
                     else:   # API calls / attribute edits run as their own tasks, like concurrent requests
                         tasks.append(asyncio.ensure_future(self._apply(ports, op, log)))
@@ -337,6 +353,7 @@ class Hub:
                         'reg': canon(p.reg),
                         'expr': str(e) if e is not None else None,
                         'ref': await self._reference(p, ports),
+                        'fault': p.fault,
                         'writes': [w[2] for w in p.write_calls[writes_before[i]:]],
                         'before': values_before[i],
                     })
